@@ -21,7 +21,7 @@ CONDS = ["always", "tag==1", "tag==2", "off<3", "flg", "flg&&tag==1", "flg||tag=
 CONDALL = ["none", "tag==1", "off<3"]
 ATTRS = ["none", "req<100", "req!=0", "skip", "emit"]
 VIRTS = ["none", "x+1", "10-x", "alias", "nested_inv", "const", "bool", "max", "choice", "x+1_req", "cond_virt",
-         "alias_nested", "k+x", "x*2", "neg", "abs"]
+         "alias_nested", "k+x", "x*2", "neg", "abs", "c2^31", "c2^32", "c2^63", "c-2^63", "c2^64-1", "c2^31-1", "cbool"]
 SREQS = ["none", "tag!=3", "len<=off"]
 PARAMS = ["none", "uint4", "int4", "enum"]
 
@@ -293,6 +293,11 @@ def program(ch, menu=None):
         v = A.Field("v", expr=OP("+", C(5), X))
     elif vk == "x*2":
         v = A.Field("v", expr=OP("*", X, C(2)))
+    elif vk in ("c2^31", "c2^32", "c2^63", "c-2^63", "c2^64-1", "c2^31-1"):
+        v = A.Field("v", expr=C({"c2^31": 2 ** 31, "c2^32": 2 ** 32, "c2^63": 2 ** 63, "c-2^63": -2 ** 63,
+                                 "c2^64-1": 2 ** 64 - 1, "c2^31-1": 2 ** 31 - 1}[vk]))
+    elif vk == "cbool":
+        v = A.Field("v", expr=OP("==", C(3), C(3)))
     elif vk == "neg":
         v = A.Field("v", expr=("neg", X))
     elif vk == "abs":
@@ -301,7 +306,7 @@ def program(ch, menu=None):
         fields.append(v)
     wk = pick(["none", "v*2", "v+len"], "virt1")
     feats["virt1"] = wk
-    if v is not None and vk not in ("bool",) and wk != "none":
+    if v is not None and vk not in ("bool", "cbool", "c2^63", "c-2^63", "c2^64-1") and wk != "none":
         if wk == "v*2":
             fields.append(A.Field("w", expr=OP("*", F("v"), C(2))))
         else:
